@@ -426,8 +426,16 @@ func (m *Manager) FlushMemTables() error {
 	// Track operation
 	m.stats.TrackOperation(stats.OpFlush)
 
+	// Take over the queue of immutable MemTables. Writers append to it under m.mu
+	// (scheduleFlush), so it must not be read or truncated under flushMu alone: a table
+	// queued while a flush is running would be dropped from the queue unflushed.
+	m.mu.Lock()
+	pending := m.immutableMTs
+	m.immutableMTs = make([]*memtable.MemTable, 0)
+	m.mu.Unlock()
+
 	// If no immutable MemTables, flush the active one if needed
-	if len(m.immutableMTs) == 0 {
+	if len(pending) == 0 {
 		tables := m.memTablePool.GetMemTables()
 		if len(tables) > 0 && tables[0].ApproximateSize() > 0 {
 			// In testing, we might want to force flush the active table too
@@ -448,22 +456,28 @@ func (m *Manager) FlushMemTables() error {
 		return nil
 	}
 
+	// requeue puts tables that could not be flushed back at the head of the queue
+	requeue := func(tables []*memtable.MemTable) {
+		m.mu.Lock()
+		m.immutableMTs = append(tables, m.immutableMTs...)
+		m.mu.Unlock()
+	}
+
 	// Create a new WAL file for future writes
 	if err := m.rotateWAL(); err != nil {
 		m.stats.TrackError("wal_rotate_error")
+		requeue(pending)
 		return fmt.Errorf("failed to rotate WAL: %w", err)
 	}
 
 	// Flush each immutable MemTable
-	for i, imMem := range m.immutableMTs {
+	for i, imMem := range pending {
 		if err := m.flushMemTable(imMem); err != nil {
 			m.stats.TrackError("memtable_flush_error")
+			requeue(pending[i:])
 			return fmt.Errorf("failed to flush MemTable %d: %w", i, err)
 		}
 	}
-
-	// Clear the immutable list - the MemTablePool manages reuse
-	m.immutableMTs = m.immutableMTs[:0]
 
 	// Track flush count
 	m.stats.TrackFlush()
